@@ -635,6 +635,27 @@ def check_one_node(ctx, fb, rule):
             ctx.broken('R-ONENODE: GetCallbackHelper of %s: %d std::get calls' % (f.cls[:80], len(gets)))
         ident = (f.text(gets[0]['args'][0]), (gets[0].get('cta') or ['?'])[0])
         groups.setdefault(f.cls, {}).setdefault(ident, {})[f.fta[0]] = (f, 'SharedCore<' in f.fta[1])
+    # the node an input registers is typed on that input's own core type: the callback down-casts the completing core
+    # to its Core argument before it retires it — a node of another input's type reads the result as the wrong type
+    import re as _re
+    for f in fb.fn.values():
+        if f.n != 'GetCallbackHelper' or f.clsq != 'yaclib::when::StaticCombinator' or f.cfg is None or len(f.fta or []) < 2:
+            continue
+        m = _re.search(r',\s*(\d+)>\s*&?\s*$', f.ret)
+        if m is None:
+            continue
+        head = f.ret[:m.start()]
+        cut = max(head.rfind(', yaclib::detail::UniqueCore<'), head.rfind(', yaclib::detail::SharedCore<'))
+        if cut < 0:
+            continue
+        node_core = head[cut + 2:].strip()
+        key = 'R-ONENODE callback core type'
+        n += 1
+        ctx.instance(rule, key + ' <%s> :: %s' % (f.fta[0], f.cls[:100]), None)
+        if node_core.replace(' ', '') != f.fta[1].replace(' ', ''):
+            ctx.report(rule, key, f.where, 'input number %s (a %s) registers a callback node typed on %s: the completing '
+                       'core is down-cast to the wrong type and its Result is read as a value of another input\'s type' % (
+                           f.fta[0], f.fta[1][:70], node_core[:70]), 'instantiation: ' + f.full[:300])
     for cls, idents in sorted(groups.items()):
         key = 'R-ONENODE StaticCombinator callbacks'
         n += 1
